@@ -51,13 +51,15 @@ ASSUMPTIONS = [
 MANIFEST = {
     "technique": "Lean 4 proof (invariant 'every Markup value is free of raw specials', induction over filter chains and template "
     "structure, for all data, all templates of the modelled fragment and all opaque text functions) + differential correspondence "
-    "against the real engine at the special-skeleton abstraction + direct output-scan oracle",
-    "text": "escape_clean, filter_preserves_inv, output_no_raw_specials, safe_values_unchanged and autoescape_noop_on_clean are proved "
-    "for every template of the modelled fragment, every filter chain and every render data; amp_entities_partial holds for templates "
-    "that do not cut, replace inside or upper-case an already escaped value, with kernel-checked counter-examples for each excluded "
-    "class (known findings).",
-    "note": "Trusted: Lean kernel, the hand model of the filters/tags and of markupsafe operators (tied by ~20k differential cases "
-    "per quick run), the harness desugaring. Not covered: dict/drop data, date/number formatting filters, real translation catalogues.",
+    "against the real engine at the special-skeleton abstraction + direct output-scan oracle + on/off differential",
+    "text": "escape_clean, filter_preserves_inv, expression_preserves_inv, capture_safe, output_no_raw_specials and safe_values_unchanged "
+    "are proved for every template of the modelled fragment, every filter chain, every render data and all opaque text functions; "
+    "amp_entities_partial holds for templates restricted to the entity-friendly filters, with kernel-checked counter-examples for the "
+    "filters that cut, replace inside or upper-case an already escaped value (known findings); the autoescape-is-a-no-op sentence is "
+    "proved at operator level only (autoescape_noop_on_clean_partial), refuted on outputs (autoescape_noop_counterexample) and otherwise "
+    "checked by rendering every generated case with autoescape on and off.",
+    "note": "Trusted: Lean kernel, the hand model of the filters/tags and of markupsafe operators (tied by ~15.6k differential cases "
+    "per quick run, ~93k per thorough run), the harness desugaring. Not covered: dict/drop data, date/number formatting filters, real translation catalogues.",
 }
 
 EXACT = os.environ.get("C05_EXACT") == "1"
@@ -484,6 +486,10 @@ def _coerce(val):
     return val if isinstance(val, str) else str(val)
 
 
+class _TooLong(Exception):
+    pass
+
+
 _ENVS: dict = {}
 _REC: dict = {}
 
@@ -530,6 +536,11 @@ def _build_env(auto):
         @functools.wraps(fn)
         def w(val, *a, **k):
             rec = _REC["cur"]
+            # `replace: '', x` multiplies lengths; a chain of them grows exponentially. Such cases are cut short here
+            # (reported as an error outcome, outside the model) instead of grinding through megabytes of text.
+            if any(isinstance(x, str) and len(x) > 3000 for x in (val,) + a):
+                rec["outside"].append("value-too-long")
+                raise _TooLong()
             if name in ("join", "reverse", "concat") and (val is None or isinstance(val, (bool, _HtmlObj))):
                 rec["outside"].append(name + ":" + type(val).__name__)
             for x in (val,) + a:
@@ -1333,6 +1344,7 @@ class SafeValuesStream(Stream):
             s = gen_str(rng, 1, 5)
             if i % 5 == 4:
                 s = s.replace("\n", "").replace("\r", "")
+            s = s or "<&>"  # an empty value takes the `default` branch and is falsy in `if`: not what this stream is about
             t = i % len(self.TEMPLATES)
             out.append({"t": t, "s": s, "obj": rng.chance(25) and self.TEMPLATES[t][1] != 0})
         return out
@@ -1347,6 +1359,11 @@ class SafeValuesStream(Stream):
         return {"on": on, "expect": case["s"] * max(k, 1), "src": src, "k": k}
 
     has_model = False
+
+    def shrink_candidates(self, case):
+        for s2 in (case["s"][: len(case["s"]) // 2], case["s"][1:], case["s"][:-1]):
+            if s2:
+                yield dict(case, s=s2)
 
     def oracle(self, case, obs):
         if "ok" not in obs["on"]:
